@@ -30,6 +30,7 @@ type conn struct {
 	c       net.Conn
 	proto   ProtocolInfo
 	open    bool
+	closed  bool
 	options map[string]interface{}
 	maxrx   int
 	sync.Mutex
@@ -93,7 +94,11 @@ func (p *conn) Send(msg *Message) error {
 func (p *conn) Close() error {
 	p.Lock()
 	defer p.Unlock()
-	if p.open {
+	// Close the connection even if the handshake has not completed yet,
+	// so that a handshake blocked on a silent peer is aborted when the
+	// handshaker (listener, dialer) is closed.
+	if !p.closed {
+		p.closed = true
 		p.open = false
 		return p.c.Close()
 	}
